@@ -509,6 +509,116 @@ theorem ringOf_cover_excludes (hs : List Hash) (hd : hs.Pairwise (· ≠ ·)) (r
           · exact h2 hc
 
 
+/-- **`VerifyNODATAForZoneWithWork` without a matching record, arbitrary hash**
+(wildcard NODATA, RFC 5155 §8.7): a SECURE verdict means the next-closer name
+of a validated closest encloser is covered by a span without Opt-Out, so the
+question name is not in the zone's tree (its data, if any, can only come from
+the wildcard the proof also names). -/
+theorem verifyNODATA_nomatch_sound {all hashed : List Name} {H : Name → Hash} {records : List Nsec3}
+    (hgen : ∀ r ∈ records, usable r = true → RecGenuine all hashed H r)
+    {signer q : Name} {t qclass : Nat}
+    (hclosed : ∀ n ∈ all, ∀ j, signer.length ≤ j → j ≤ n.length → n.take j ∈ all)
+    {ring : Ring} (hprep : prepare records signer = .ok ring)
+    (hnomatch : ∀ m, findMatching (fun n => some (H n)) ring q ≠ .ok m)
+    (h : verifyNODATA (fun n => some (H n)) records signer q t qclass = .ok true) : q ∉ all := by
+  obtain ⟨hzone, _, _, hent⟩ := prepare_ok hprep
+  unfold verifyNODATA at h
+  rw [hprep] at h
+  simp only at h
+  split at h
+  · cases h
+  · split at h
+    · rename_i m hm; exact absurd hm (hnomatch m)
+    · split at h
+      · cases h
+      · rename_i k m hce
+        have hwalk : walk (fun n => some (H n)) ring q q.length = some (k, m) := by
+          unfold validateCE at hce
+          split at hce
+          · cases hce
+          · rename_i k' m' hcl
+            split at hce
+            · cases hce
+            · simp only [Except.ok.injEq, Prod.mk.injEq] at hce
+              obtain ⟨rfl, rfl⟩ := hce
+              exact hcl
+        obtain ⟨hk1, hk2, hmatch⟩ := walk_ok q.length k m hwalk
+        obtain ⟨hzk, _⟩ := findMatching_ok hmatch
+        have hzlen : signer.length ≤ k := by
+          have := hzk.length_le
+          rw [take_length_le q hk2, hzone] at this
+          exact this
+        have hklt : k < q.length := by
+          rcases Nat.lt_or_ge k q.length with hlt | hge
+          · exact hlt
+          · exfalso
+            have hkeq : k = q.length := by omega
+            rw [hkeq, List.take_length] at hmatch
+            exact hnomatch m hmatch
+        split at h
+        · cases h
+        · rename_i nc hnc
+          have hnx : nextCloser q k = q.take (k + 1) := by unfold nextCloser; simp [Nat.not_le.mpr hklt]
+          rw [hnx] at hnc
+          obtain ⟨_, v, hv, hncm, hcov⟩ := findCoverer_ok hnc
+          simp only [Option.some.injEq] at hv
+          -- secure = true forces the non-DS branch with a cover that has no Opt-Out flag
+          have hfl : nc.flags % 2 = 0 := by
+            split at h
+            · split at h
+              · simp at h
+              · cases h
+            · split at h
+              · cases h
+              · split at h
+                · cases h
+                · simp only [Except.ok.injEq, Bool.not_eq_true', beq_eq_false_iff_ne, ne_eq] at h
+                  have := Nat.mod_two_eq_zero_or_one nc.flags
+                  omega
+          intro hq
+          obtain ⟨r, hr, hu, hrok, hre⟩ := hent nc hncm
+          obtain ⟨oh, nh, hoh, hnh⟩ := recordOk_hashes hrok
+          have hfl' : r.flags % 2 = 0 := by
+            have : nc.flags = r.flags := by rw [hre]; rfl
+            rw [← this]; exact hfl
+          have hin : q.take (k + 1) ∈ all := hclosed q hq (k + 1) (by omega) (by omega)
+          have := (hgen r hr hu).gapAll hfl' oh nh hoh hnh _ hin
+          have e1 : nc.ownerHash = oh := by rw [hre]; simp [toEntry, hoh]
+          have e2 : nc.nextHash = nh := by rw [hre]; simp [toEntry, hnh]
+          rw [e1, e2, ← hv] at hcov
+          rw [hcov] at this
+          cases this
+
+/-- the record is (a copy of) a record of the ring obtained by sorting the
+hashes of `names` — flags and bitmap are free. -/
+def FromRing (names : List Name) (H : Name → Hash) (r : Nsec3) : Prop :=
+  ∃ x ∈ ringOf (names.map H), ∃ o n, x.owner = [o] ∧ x.next = [n] ∧ r.ownerHash = some o ∧ r.next = some n
+
+/-- **Records of the sorted ring are genuine** (no Opt-Out omission: every
+name of the tree is hashed): this discharges the abstract `RecGenuine`
+hypothesis of the NSEC3 soundness theorems from the ring's construction, for
+any hash function that is collision-free on the zone's own names. -/
+theorem fromRing_genuine (names : List Name) (H : Name → Hash) (hd : (names.map H).Pairwise (· ≠ ·))
+    (r : Nsec3) (hr : FromRing names H r) : RecGenuine names names H r := by
+  obtain ⟨x, hx, o, n, ho, hn, hro, hrn⟩ := hr
+  have key : ∀ y ∈ names, covers3 o n (H y) = false := by
+    intro y hy
+    cases hc : covers3 o n (H y) with
+    | false => rfl
+    | true =>
+      exact absurd (List.mem_map.mpr ⟨y, hy, rfl⟩) (ringOf_cover_excludes _ hd x hx o n ho hn (H y) hc)
+  constructor
+  · intro oh nh h1 h2 y hy
+    rw [hro] at h1; rw [hrn] at h2
+    simp only [Option.some.injEq] at h1 h2
+    subst h1 h2
+    exact key y hy
+  · intro _ oh nh h1 h2 y hy
+    rw [hro] at h1; rw [hrn] at h2
+    simp only [Option.some.injEq] at h1 h2
+    subst h1 h2
+    exact key y hy
+
 /-! ### EvaluateAggressiveNSEC3: NXDOMAIN soundness for an arbitrary hash -/
 
 /-- an admitted aggressive entry mirrors one of the caller's records. -/
